@@ -48,6 +48,9 @@ def cases(ctx):
         yield c
 
 
+AUTOPOOL_LADDER = [[(3,)], [(), (4,)], [(5,), ()], [(7,)], [(2, 4)], [(3,), (3,)], [(16,), ()], [(17,)], [(1, 3), ()], [(3, 1)]]
+
+
 def autopool_ccube(ctx):
     """Sparse index cubes of 2^28..2^31 rows with extra axes: the cube engages its pool by itself.
     Blocks of the count are compared with the count over the 1-D slices (each a serial cube)."""
@@ -55,11 +58,17 @@ def autopool_ccube(ctx):
     from .c02 import sparse_case
 
     rng = ctx.rng
-    for _ in range(ctx.shard["n"]):
-        for _try in range(50):
-            case = sparse_case(rng)
-            if any(sp["extra"] for sp in case["sparse"]):
-                break
+    for i in range(ctx.shard["n"]):
+        if i < len(AUTOPOOL_LADDER):
+            # the first cases of every run: a fixed ladder of sub-cube counts (3, 4, 5, 7, 8, 9, 16, 17 - one more and
+            # one less than the usual pool sizes and their multiples), every one large enough to engage the pool
+            case = sparse_case(rng, n=int(gen.pick(rng, [2 ** 29 + 3, 2 ** 30])), extras=AUTOPOOL_LADDER[i])
+            ctx.count("class:autopool_subcubes=%d" % int(numpy.prod([e for ex in AUTOPOOL_LADDER[i] for e in ex])))
+        else:
+            for _try in range(50):
+                case = sparse_case(rng)
+                if any(sp["extra"] for sp in case["sparse"]):
+                    break
         n = case["n"]
         specs = case["sparse"]
 
